@@ -1,6 +1,131 @@
-//! Special runner `tvh c16 ...` for C16 (things that do not fit replay/record). Fill in.
+//! Special runner `tvh c16 ...` for C16: discovery helpers shared with the recorder (rec/c16.rs).
+//!   tvh c16 ids                       -> calendar identifiers the crate accepts (probed through Calendar::from_str)
+//!   tvh c16 aliases                   -> (calendar, era alias) pairs read from the crate's own tables at run time
+//!   tvh c16 probe <cal> <y> <m> <d> [count]  -> Cal.Day lines for consecutive days (debugging aid)
+use crate::gen::{civil, days_from_civil};
+use crate::ops;
+use serde_json::{json, Value};
+use std::str::FromStr;
+use temporal_rs::Calendar;
+
+/// Candidate spellings probed through the public parser; what it accepts is the list of supported calendars.
+/// (BCP-47 `ca` values known to CLDR plus a few spellings that must be rejected or are aliases.)
+pub const CANDIDATES: &[&str] = &[
+    "iso8601", "iso", "buddhist", "chinese", "coptic", "dangi", "ethioaa", "ethiopic", "ethiopic-amete-alem", "gregory", "gregorian",
+    "hebrew", "indian", "islamic", "islamic-civil", "islamicc", "islamic-rgsa", "islamic-tbla", "islamic-umalqura",
+    "japanese", "japanext", "persian", "roc", "julian",
+];
+
+/// identifiers accepted by the crate: (spelling, canonical identifier)
+pub fn accepted() -> Vec<(String, String)> {
+    let mut v = Vec::new();
+    for c in CANDIDATES {
+        if let Ok(Ok(cal)) = std::panic::catch_unwind(|| Calendar::from_str(c)) {
+            v.push((c.to_string(), cal.identifier().to_string()));
+        }
+    }
+    v
+}
+/// canonical identifiers (deduplicated, in candidate order)
+pub fn calendars() -> Vec<String> {
+    let mut v: Vec<String> = Vec::new();
+    for (_, id) in accepted() { if !v.contains(&id) { v.push(id); } }
+    v
+}
+
+fn kind_to_id(kind: &str) -> Option<&'static str> {
+    Some(match kind {
+        "Buddhist" => "buddhist", "Chinese" => "chinese", "Coptic" => "coptic", "Dangi" => "dangi",
+        "Ethiopian" => "ethiopic", "EthiopianAmeteAlem" => "ethioaa", "Gregorian" => "gregory", "Hebrew" => "hebrew",
+        "Indian" => "indian", "IslamicCivil" => "islamic-civil", "IslamicObservational" => "islamic",
+        "IslamicTabular" => "islamic-tbla", "IslamicUmmAlQura" => "islamic-umalqura", "Iso" => "iso8601",
+        "Japanese" => "japanese", "JapaneseExtended" => "japanext", "Persian" => "persian", "Roc" => "roc",
+        _ => return None,
+    })
+}
+
+fn literals(s: &str) -> Vec<String> {
+    let mut out = Vec::new();
+    let mut rest = s;
+    while let Some(i) = rest.find('"') {
+        let r = &rest[i + 1..];
+        if let Some(j) = r.find('"') { out.push(r[..j].to_string()); rest = &r[j + 1..]; } else { break; }
+    }
+    out
+}
+
+/// (calendar id, alias) pairs accepted by `Calendar::get_era_info`, read from the crate's source at run time
+/// (the tables are pub(crate); reading the files keeps this list in step with the tree under test).
+/// Falls back to an empty list (the recorder then uses only the era names the getters report plus its built-in list).
+pub fn crate_aliases() -> Vec<(String, String)> {
+    let root = std::env::var("VERIF_REPO").unwrap_or_else(|_| "/repo".to_string());
+    let era_rs = std::fs::read_to_string(format!("{root}/src/builtins/core/calendar/era.rs")).unwrap_or_default();
+    let cal_rs = std::fs::read_to_string(format!("{root}/src/builtins/core/calendar.rs")).unwrap_or_default();
+    // const NAME: [TinyAsciiStr<19>; n] = [ era_identifier!("a"), ... ];
+    let mut consts: Vec<(String, Vec<String>)> = Vec::new();
+    for chunk in era_rs.split("pub(crate) const ").skip(1) {
+        let name: String = chunk.chars().take_while(|c| c.is_ascii_alphanumeric() || *c == '_').collect();
+        if let Some(end) = chunk.find(';') {
+            // the array type itself contains ';' ("[T; 2]"): take up to the closing "];"
+            let body_end = chunk.find("];").map(|e| e + 1).unwrap_or(end);
+            let body = &chunk[..body_end];
+            if body.contains("era_identifier!") { consts.push((name, literals(body))); }
+        }
+    }
+    let mut out: Vec<(String, String)> = Vec::new();
+    let Some(start) = cal_rs.find("fn get_era_info") else { return out; };
+    let body = &cal_rs[start..];
+    let body = &body[..body.find("fn get_calendar_default_era").unwrap_or(body.len())];
+    for arm in body.split("AnyCalendarKind::").skip(1) {
+        let kind: String = arm.chars().take_while(|c| c.is_ascii_alphanumeric()).collect();
+        let Some(id) = kind_to_id(&kind) else { continue; };
+        let guard = &arm[..arm.find("=>").unwrap_or(arm.len())];
+        if let Some(p) = guard.find("era::") {
+            let cname: String = guard[p + 5..].chars().take_while(|c| c.is_ascii_alphanumeric() || *c == '_').collect();
+            if let Some((_, ls)) = consts.iter().find(|(n, _)| *n == cname) {
+                for l in ls { out.push((id.to_string(), l.clone())); }
+            }
+        } else {
+            for l in literals(guard) { out.push((id.to_string(), l)); }
+        }
+    }
+    out.dedup();
+    out
+}
+
 pub fn main(a: &[String]) {
-    let _ = a;
-    eprintln!("not implemented");
-    std::process::exit(2);
+    match a.first().map(|s| s.as_str()).unwrap_or("") {
+        "ids" => println!("{}", json!({"accepted": accepted(), "calendars": calendars()})),
+        "aliases" => println!("{}", json!(crate_aliases())),
+        "probe" | "probe-loud" => {
+            if a[0] == "probe-loud" { let _ = std::panic::take_hook(); }
+            let (y, m, d): (i64, i64, i64) = (a[2].parse().unwrap(), a[3].parse().unwrap(), a[4].parse().unwrap());
+            let cnt: i64 = a.get(5).map(|s| s.parse().unwrap()).unwrap_or(1);
+            let n0 = days_from_civil(y, m, d);
+            for n in n0..n0 + cnt {
+                let (y, m, d) = civil(n);
+                let out = ops::exec("Cal.Day", &json!({"cal": a[1], "n": n, "iso": {"y": y, "m": m, "d": d}}));
+                println!("{y:+07}-{m:02}-{d:02} {out}");
+            }
+        }
+        "scan" => {
+            // tvh c16 scan <cal> <y0> <y1> <step-years>: where do the getters panic?
+            let (y0, y1, st): (i64, i64, i64) = (a[2].parse().unwrap(), a[3].parse().unwrap(), a[4].parse().unwrap());
+            let mut y = y0;
+            let mut last = String::new();
+            while y <= y1 {
+                let n = days_from_civil(y, 6, 15);
+                let (yy, m, d) = civil(n);
+                let out = ops::exec("Cal.Day", &json!({"cal": a[1], "n": n, "iso": {"y": yy, "m": m, "d": d}}));
+                let k = out["kind"].as_str().unwrap().to_string();
+                if k != last { println!("{y} {k}"); last = k; }
+                y += st;
+            }
+        }
+        "exec" => {
+            let v: Value = serde_json::from_str(&a[1]).expect("json");
+            println!("{}", ops::exec(v["op"].as_str().unwrap(), &v["args"]));
+        }
+        _ => { eprintln!("usage: tvh c16 ids | aliases | probe <cal> <y> <m> <d> [count]"); std::process::exit(2); }
+    }
 }
